@@ -18,6 +18,7 @@ open AM.Gen
 structure Facts where
   openRaced    : Bool        -- the FIFO is opened in a Go routine and raced against `ctx.Done()`
   closerOnCtx  : Bool        -- a Go routine closes the file on `ctx.Done()`
+  fdCalls      : Nat         -- calls of `(*os.File).Fd()` on the pipe: the descriptor leaves the poller, `Close` no longer interrupts `Read`
   openSelect   : BlockKind   -- the `select` waiting for the open
   auditSend    : BlockKind   -- `AuditLogIngester.Process`: the send of the line
   loginSend    : BlockKind   -- the sshd processor's hand-off of a login (the weakest of its sends)
@@ -49,7 +50,7 @@ def nilOf (fn : String) : Nat := ((returnsNil.find? (·.1 == fn)).map (·.2)).ge
 
 /-- the facts as regenerated from the working tree -/
 def fromGen : Facts :=
-  { openRaced := ingestOpenRacedWithCtx, closerOnCtx := ingestCloserOnCtx,
+  { openRaced := ingestOpenRacedWithCtx, closerOnCtx := ingestCloserOnCtx, fdCalls := pipeFdCalls,
     openSelect := weakest (kindsOf recvs "NamedPipeIngester.Ingest" ""),
     auditSend := weakest (kindsOf sends "AuditLogIngester.Process" ""),
     loginSend := weakest (kindsOf sends "processAcceptPublicKeyEntry" "config.logins" ++
@@ -65,7 +66,7 @@ def fromGen : Facts :=
 
 /-- what the theorems need -/
 def Facts.good (f : Facts) : Bool :=
-  f.openRaced && f.closerOnCtx && f.openSelect == .selCtx && f.auditSend == .selCtx && f.loginSend == .selCtx &&
+  f.openRaced && f.closerOnCtx && decide (f.fdCalls = 0) && f.openSelect == .selCtx && f.auditSend == .selCtx && f.loginSend == .selCtx &&
   f.readLoop == .selCtx && f.parseLoop == .selCtx && f.maintLoop == .selCtx && decide (1 ≤ f.parseDoneCap) &&
   decide (f.readGoJoined = f.readGo) && decide (f.readGoOnCtx = f.readGo) && f.readDefersWait &&
   decide (f.nilReturns = 0) && decide (f.workers = 3) && f.waitReturned && f.fatalOnError
@@ -85,7 +86,7 @@ structure Core where
   deriving DecidableEq, Repr
 
 def Facts.core (f : Facts) : Core :=
-  { openOk := f.openRaced && f.openSelect == .selCtx, closerOk := f.closerOnCtx,
+  { openOk := f.openRaced && f.openSelect == .selCtx, closerOk := f.closerOnCtx && decide (f.fdCalls = 0),
     auditOk := f.auditSend == .selCtx, loginOk := f.loginSend == .selCtx,
     readOk := f.readLoop == .selCtx, parseOk := f.parseLoop == .selCtx, maintOk := f.maintLoop == .selCtx,
     doneRoom := decide (1 ≤ f.parseDoneCap),
